@@ -282,7 +282,7 @@ func runTops(c *lib.Ctx) {
 		if obs[i].ok {
 			o = lib.Some(lib.Str(obs[i].stream))
 		}
-		c.Case(lib.App("CTop", lib.Str(root), x.coq(obs[i]), o), map[string]any{"kind": "top1", "top": x.js(), "stream": obs[i].stream, "ok": obs[i].ok}, "t"+x.key(), x.Kind != "node")
+		oldCase(c, lib.App("CTop", lib.Str(root), x.coq(obs[i]), o), map[string]any{"kind": "top1", "top": x.js(), "stream": obs[i].stream, "ok": obs[i].ok}, "t"+x.key(), x.Kind != "node")
 		c.Hist("top_kind", x.Kind)
 		if !obs[i].ok {
 			c.Hist("top_hash_error", x.Sym)
@@ -332,7 +332,7 @@ func checkTopPairs(c *lib.Ctx, tops []top, obs []topObs, negCap int) {
 		seenOf[name]++
 		c.Hist("top_collision_class", name)
 		if cls != "" {
-			c.Case(lib.App("CTopClass", lib.Str(root), x.coq(obs[p.i]), y.coq(obs[p.j]), coqTClass(cls, inh)),
+			oldCase(c, lib.App("CTopClass", lib.Str(root), x.coq(obs[p.i]), y.coq(obs[p.j]), coqTClass(cls, inh)),
 				map[string]any{"pair": topPairJS(x, y), "class": cls}, "tp"+x.key()+y.key(), true)
 		}
 	}
@@ -343,7 +343,7 @@ func checkTopPairs(c *lib.Ctx, tops []top, obs []topObs, negCap int) {
 			c.Hist("top_classified_but_distinct_streams", cls)
 			continue
 		}
-		c.Case(lib.App("CTopClass", lib.Str(root), x.coq(obs[rest[k].i]), y.coq(obs[rest[k].j]), "None"),
+		oldCase(c, lib.App("CTopClass", lib.Str(root), x.coq(obs[rest[k].i]), y.coq(obs[rest[k].j]), "None"),
 			map[string]any{"pair": topPairJS(x, y), "class": nil}, "tn"+x.key()+y.key(), false)
 	}
 	c.Note("top-level symlinks: %d paths, %d pairs with equal streams, %d with different streams", len(tops), len(coll), len(rest))
@@ -923,7 +923,7 @@ func runMemo(c *lib.Ctx) {
 			nFollowed++
 		}
 		nOps += len(ops)
-		c.Case(lib.App("CMemo", lib.Str(root), lib.List(trace)), map[string]any{"kind": "memo", "ops": ops}, fmt.Sprintf("m%d", i), followed)
+		oldCase(c, lib.App("CMemo", lib.Str(root), lib.List(trace)), map[string]any{"kind": "memo", "ops": ops}, fmt.Sprintf("m%d", i), followed)
 	}
 	c.Note("memo: %d operation sequences (%d operations) on one long-lived hasher each, %d inside the protocol throughout", n, nOps, nFollowed)
 }
@@ -960,7 +960,7 @@ func replayFollowup(c *lib.Ctx, kind string, a, b, tree any, vs []variant, va, v
 			if obs[i].ok {
 				o = lib.Some(lib.Str(obs[i].stream))
 			}
-			c.Case(lib.App("CTop", lib.Str(root), x.coq(obs[i]), o), x.js(), "t"+x.key(), true)
+			oldCase(c, lib.App("CTop", lib.Str(root), x.coq(obs[i]), o), x.js(), "t"+x.key(), true)
 		}
 		checkTopPairs(c, tops, obs, 1)
 	case "order", "order-pair":
@@ -985,7 +985,7 @@ func replayFollowup(c *lib.Ctx, kind string, a, b, tree any, vs []variant, va, v
 	case "memo":
 		trace, followed, fail := runMemoSeq(c, ops)
 		reportMemo(c, ops, fail)
-		c.Case(lib.App("CMemo", lib.Str(root), lib.List(trace)), map[string]any{"kind": "memo", "ops": ops}, "m", followed)
+		oldCase(c, lib.App("CMemo", lib.Str(root), lib.List(trace)), map[string]any{"kind": "memo", "ops": ops}, "m", followed)
 	default:
 		panic("unknown replay kind " + kind)
 	}
